@@ -7,6 +7,8 @@ import XmpProofs.LhaFrame
 import XmpProofs.ArcfsFrame
 import XmpProofs.LzxFrame
 import XmpProofs.MmcmpFrame
+import XmpProofs.Squeeze
+import XmpProofs.LhNew
 /-!
 # C08 — Built-in unpacking is transparent and byte-exact
 
@@ -946,5 +948,169 @@ theorem C08_pipeline_mmcmp_packed {β : Type} (env : Env) (loader : Bytes → β
   generalize (blocks.map (fun b => b.2.flatten)).flatten = P at *
   have : P.length ≠ 0 := by omega
   simp [reopenMem, this]
+
+
+/-! ## ARC squeeze (method 4): node table, tree check, code walk, RLE90 over the window blocks -/
+
+/-- **Huffman stage of `arc_unpack_huffman_rle90`: decode ∘ encode = id for every code tree.**  `SqTree.Ok`: the root is
+    a node, at most `HUFFMAN_TREE_MAX` = 256 nodes (so up to 257 leaves: 256 byte values and the end-of-stream symbol;
+    a table of exactly 256 nodes is accepted), leaf symbols ≤ 256.  Covered: node count and child index tests,
+    `arc_huffman_check_tree` (every stored tree passes), the 11-bit lookup and the bit-by-bit walk, the symbol loop up
+    to the end-of-stream code; `T` = anything behind the stream. -/
+theorem C08_squeeze_huffman_roundtrip (t : SqTree) (ht : t.Ok) (syms T : Bytes)
+    (hcov : ∀ b ∈ syms, (sqCode t b.toNat).isSome) (heof : (sqCode t 256).isSome) :
+    sqDecode (sqEncode t syms ++ T) = some syms :=
+  sqDecode_encode t ht syms T hcov heof
+
+/-- **squeezed member: decode ∘ encode = id** — any well-formed RLE90 token stream (in particular `rle90Enc p`), any
+    code tree covering its bytes; the RLE90 stage runs block by block over the 8192-byte window with its state kept -/
+theorem C08_squeeze_roundtrip (t : SqTree) (ht : t.Ok) (ts : List Tok) (hok : ∀ x ∈ ts, x.Ok) (T : Bytes)
+    (hcov : ∀ b ∈ render ts, (sqCode t b.toNat).isSome) (heof : (sqCode t 256).isSome) :
+    unsqueeze (expand ts).length (squeeze t ts ++ T) = some (expand ts) :=
+  unsqueeze_squeeze t ht ts hok T hcov heof
+
+/-- a comb: every symbol of the list is a leaf (codes 0, 10, 110, …); `n + 1` symbols need `n` nodes -/
+def sqComb : List Nat → SqTree
+  | [] => .leaf 0
+  | [s] => .leaf s
+  | s :: r => .node (.leaf s) (sqComb r)
+
+theorem sqComb_size : ∀ l : List Nat, (sqComb l).size = l.length - 1
+  | [] => rfl
+  | [_] => rfl
+  | _ :: b :: r => by
+    have := sqComb_size (b :: r)
+    simp only [sqComb, SqTree.size, List.length_cons] at this ⊢
+    omega
+
+theorem sqComb_leaves (m : Nat) : ∀ l : List Nat, (∀ s ∈ l, s ≤ m) → (sqComb l).LeavesLe m
+  | [], _ => Nat.zero_le _
+  | [s], h => h s (by simp)
+  | a :: b :: r, h => ⟨h a (by simp), sqComb_leaves m (b :: r) (fun s hs => h s (by simp [hs]))⟩
+
+theorem sqComb_code : ∀ (l : List Nat) (x : Nat), x ∈ l → (sqCode (sqComb l) x).isSome
+  | [], x, h => by simp at h
+  | [s], x, h => by
+    simp only [List.mem_singleton] at h
+    subst h; simp [sqComb, sqCode]
+  | a :: b :: r, x, h => by
+    simp only [sqComb, sqCode]
+    by_cases e : a = x
+    · simp [e]
+    · have hx : x ∈ b :: r := by
+        simp only [List.mem_cons] at h ⊢
+        rcases h with h | h
+        · exact absurd h.symm e
+        · exact h
+      have := sqComb_code (b :: r) x hx
+      simp [e, Option.isSome_map, this]
+
+/-- the full alphabet: 257 leaves, exactly `HUFFMAN_TREE_MAX` = 256 nodes -/
+def sqFullTree : SqTree := sqComb (List.range 257)
+
+theorem sqComb_isNode : ∀ l : List Nat, 2 ≤ l.length → (sqComb l).isNode = true
+  | [], h => by simp at h
+  | [_], h => by simp at h
+  | _ :: _ :: _, _ => rfl
+
+theorem sqFullTree_ok : sqFullTree.Ok :=
+  ⟨sqComb_isNode _ (by simp [List.length_range]), by rw [sqFullTree, sqComb_size, List.length_range]; omega,
+   sqComb_leaves 256 _ (by intro s hs; simp only [List.mem_range] at hs; omega)⟩
+
+/-- **tree size boundary**: a table of exactly 256 nodes (payload uses every byte value) is accepted and decodes every
+    byte string; a node count of 257 or more is refused -/
+theorem C08_squeeze_tree_limit :
+    sqFullTree.size = 256 ∧
+    (∀ syms T : Bytes, sqDecode (sqEncode sqFullTree syms ++ T) = some syms) ∧
+    (∀ src : Bytes, 257 ≤ u16At src 0 → sqInit src = none) := by
+  refine ⟨by rw [sqFullTree, sqComb_size, List.length_range], ?_, ?_⟩
+  · intro syms T
+    refine sqDecode_encode sqFullTree sqFullTree_ok syms T ?_ ?_
+    · intro b _
+      exact sqComb_code _ _ (by have := b.toNat_lt; simp only [List.mem_range]; omega)
+    · exact sqComb_code _ _ (by simp)
+  · intro src h
+    unfold sqInit sqInitWith
+    have e1 : sqTreeMaxInclusive = true := rfl
+    have e2 : sqTreeMax = 256 := rfl
+    rw [e1, e2]
+    by_cases h2 : src.length < 2
+    · simp [h2]
+    · have : u16At src 0 = 0 ∨ u16At src 0 > 256 := Or.inr (by omega)
+      simp only [h2, if_false, if_true]
+      rw [if_pos this]
+
+/-- **ARC / Spark framing with a squeezed member** (method 4 / 0x84) behind any excluded files, directory headers and
+    closing markers: the member is reached, `arc_unpack` (squeeze model in front of the remaining decoder parameter)
+    returns its data, the CRC-16 gate passes -/
+theorem C08_arc_framing_squeeze (crc : Bytes → UInt16) (rest : Nat → Bytes → Nat → Option Bytes) (pre : List ArcItem)
+    (post : Bytes) (m : ArcMember) (t : SqTree) (ts : List Tok) (level' : Nat)
+    (hpre : ∀ x ∈ pre, x.Ok crc) (hlev : arcLevel 0 pre = some level')
+    (hm : ArcHdrOk m (squeeze t ts).length (crc (expand ts)).toNat (expand ts).length)
+    (hmeth : m.method % 128 = 4) (hx : excludeMatch m.name = false) (hlim : (expand ts).length ≤ depackLimit)
+    (ht : t.Ok) (hok : ∀ x ∈ ts, x.Ok)
+    (hcov : ∀ b ∈ render ts, (sqCode t b.toNat).isSome) (heof : (sqCode t 256).isSome) :
+    arcRead crc (arcDecSq rest)
+      (arcItemsBytes crc pre ++ (arcHdrG m (squeeze t ts).length (crc (expand ts)).toNat (expand ts).length ++
+        (squeeze t ts ++ post))) = some (expand ts) :=
+  arcRead_items_squeeze crc rest pre post m t ts level' hpre hlev hm hmeth hx hlim ht hok hcov heof
+
+/-- the squeeze model in front of the `arc_unpack` parameter of an environment -/
+def Env.withSqueeze (env : Env) : Env := { env with arcDec := arcDecSq env.arcDec }
+
+/-- **pipeline, ARC / Spark squeezed member (no decoder hypothesis)**; the signature test of the archive's first
+    header is the hypothesis `hdisp` (proved for archives that begin with a file header in `C08_pipeline_arc`) -/
+theorem C08_pipeline_arc_squeeze {β : Type} (env : Env) (loader : Bytes → β) (pre : List ArcItem)
+    (post : Bytes) (m : ArcMember) (t : SqTree) (ts : List Tok) (level' : Nat)
+    (hpre : ∀ x ∈ pre, x.Ok env.crc16) (hlev : arcLevel 0 pre = some level')
+    (hm : ArcHdrOk m (squeeze t ts).length (env.crc16 (expand ts)).toNat (expand ts).length)
+    (hmeth : m.method % 128 = 4) (hx : excludeMatch m.name = false) (hlim : (expand ts).length ≤ depackLimit)
+    (ht : t.Ok) (hok : ∀ x ∈ ts, x.Ok)
+    (hcov : ∀ b ∈ render ts, (sqCode t b.toNat).isSome) (heof : (sqCode t 256).isSome) (hne : expand ts ≠ [])
+    (hdisp : dispatch (arcItemsBytes env.crc16 pre ++ (arcHdrG m (squeeze t ts).length (env.crc16 (expand ts)).toNat
+      (expand ts).length ++ (squeeze t ts ++ post))) = some "arc") :
+    loadByPath env.withSqueeze loader (arcItemsBytes env.crc16 pre ++ (arcHdrG m (squeeze t ts).length
+      (env.crc16 (expand ts)).toNat (expand ts).length ++ (squeeze t ts ++ post))) =
+      some (loadFromMemory loader (expand ts)) ∧
+    (loadByPath env.withSqueeze loader (arcItemsBytes env.crc16 pre ++ (arcHdrG m (squeeze t ts).length
+      (env.crc16 (expand ts)).toNat (expand ts).length ++ (squeeze t ts ++ post)))).map (·.2) =
+      some (md5 (expand ts)) := by
+  apply C08_pipeline_of_decrunch
+  unfold decrunch
+  rw [hdisp]
+  simp only [Env.withSqueeze]
+  rw [C08_arc_framing_squeeze env.crc16 env.arcDec pre post m t ts level' hpre hlev hm hmeth hx hlim ht hok hcov heof]
+  have : (expand ts).length ≠ 0 := fun h => hne (List.eq_nil_of_length_eq_zero h)
+  simp [reopenMem, this]
+
+/-! ## LHA -lh4- … -lh7-: the dictionary in front of the file -/
+
+/-- **the history of the "new" LHA decoders starts as blanks** (`init_ring_buffer`; the fill value is generated from the
+    `memset` in lh_new_decoder.c), and the first copy command of a stream — whatever its offset below the ring size and
+    its length — therefore yields blanks: a match may reach back before byte 0 of the file -/
+theorem C08_lh_new_blank_dictionary :
+    (∀ n, lhNewInitialWindow n = List.replicate n 0x20) ∧
+    (∀ (ring o n : Nat) (ts : List LhTok), o < ring →
+      ∃ rest, lhNewExpand ring (.copy o n :: ts) = List.replicate n 0x20 ++ rest) :=
+  ⟨lhNewInitialWindow_blank, fun ring o n ts ho => lhNewExpand_first_copy ring o n ts ho⟩
+
+/-- **copy stage: decode ∘ encode = id** for the encoder that writes leading blanks as matches into the dictionary in
+    front of the file; every command it emits is expressible (3 … 256 bytes) -/
+theorem C08_lh_new_lead_roundtrip (ring o : Nat) (p : Bytes) (ho : o < ring) :
+    lhNewExpand ring (lhNewEncodeLead o p) = p ∧ lhNewExpand ring (p.map .lit) = p :=
+  ⟨lhNewExpand_encodeLead ring o p ho, lhNewExpand_lits ring p⟩
+
+/-- the decoder parameter of the LHA walk with the copy stage modelled: a Huffman stage that delivers commands whose
+    expansion is `p` makes `-lh4-`…`-lh7-` members come back as `p` -/
+theorem C08_lha_new_decoder (huff : Bytes → Bytes → Option (List LhTok)) (rest : Bytes → Bool → Bytes → Nat → Option Bytes)
+    (method cdata p : Bytes) (mac : Bool) (ring : Nat) (toks : List LhTok)
+    (hm : lhNewRing method = some ring) (hh : huff method cdata = some toks) (he : lhNewExpand ring toks = p) :
+    lhaDecNew huff rest method mac cdata p.length = some p :=
+  lhaDecNew_spec huff rest method cdata p mac ring toks hm hh he
+
+example : lhNewExpand 16384 (lhNewEncodeLead 16383 [0x20, 0x20, 0x20, 0x20, 0x41]) = [0x20, 0x20, 0x20, 0x20, 0x41] :=
+  (C08_lh_new_lead_roundtrip 16384 16383 _ (by decide)).1
+
+example : lhNewEncodeLead 5 [0x20, 0x20, 0x20, 0x20, 0x41] = [.copy 5 4, .lit 0x41] := by decide
 
 end Xmp.Container
